@@ -232,9 +232,13 @@ pub fn exec(func: &str, a: &mut Args) -> String {
 
 // ------------------------------------------------------------------ generators
 
-fn coord(r: &mut Rng, lat: bool) -> f64 {
+fn coord(r: &mut Rng, mode: u64) -> f64 {
     // never -0.0 / NaN: the vertex HashMap hashes the bytes of the coordinates (see claims note)
-    if lat { r.range(0, 2) as f64 } else { (r.range(-8, 8) as f64) * 0.25 + 0.125 * (r.range(0, 3) as f64) }
+    match mode {
+        0 => r.range(0, 2) as f64,
+        1 => (r.range(-8, 8) as f64) * 0.25 + 0.125 * (r.range(0, 3) as f64),
+        _ => { let x = r.uniform(-10.0, 10.0); if x == 0.0 { 1.0 } else { x } }
+    }
 }
 fn gen_flags(r: &mut Rng) -> u16 {
     match r.below(10) {
@@ -287,13 +291,22 @@ fn gen_mesh(r: &mut Rng, d: usize, small: bool) -> RawMesh {
             RawMesh { v: vec![z(0.0, 0.0, 0.0), z(1.0, 0.0, 0.0), z(0.0, 1.0, 0.0), z(0.0, -1.0, 1.0), z(1.0, 1.0, -1.0)],
                       i: vec![[0, 1, 2], [1, 0, 3], [0, 1, 4]], f: 0 } }
         _ => { // random soup over a small lattice (duplicate coordinates are frequent)
-            let lat = r.below(3) != 0;
+            let mode = r.below(4).min(2);
             let nv = r.range(3, if small { 5 } else { 8 }) as usize;
-            let v: Vec<Vec<f64>> = (0..nv).map(|_| (0..d).map(|_| coord(r, lat)).collect()).collect();
+            let mut v: Vec<Vec<f64>> = (0..nv).map(|_| (0..d).map(|_| coord(r, mode)).collect()).collect();
+            if mode == 2 { // random coordinates never coincide by chance: copy some
+                for _ in 0..r.below(3) { let a = r.below(nv as u64) as usize; let b2 = r.below(nv as u64) as usize; v[a] = v[b2].clone(); }
+            }
             let ni = r.range(1, if small { 4 } else { 9 }) as usize;
             let i = (0..ni).map(|_| [r.below(nv as u64) as u32, r.below(nv as u64) as u32, r.below(nv as u64) as u32]).collect();
             RawMesh { v, i, f: 0 } }
     };
+    // sometimes move the mesh to generic (non-lattice) coordinates: x -> s * x + t per axis (keeps duplicates duplicated)
+    if r.below(3) == 0 {
+        let sc: Vec<f64> = (0..d).map(|_| r.uniform(0.3, 3.0)).collect();
+        let tr: Vec<f64> = (0..d).map(|_| r.uniform(-5.0, 5.0)).collect();
+        for p in m.v.iter_mut() { for k in 0..d { let x = p[k] * sc[k] + tr[k]; p[k] = if x == 0.0 { 0.0 } else { x }; } }
+    }
     // perturbations: duplicate vertex, duplicate / permuted / reversed / degenerate triangle
     let np = r.below(4);
     for _ in 0..np {
@@ -327,8 +340,8 @@ fn gen_ops(r: &mut Rng, d: usize, maxlen: u64) -> Vec<RawOp> {
 
 pub fn gen(r: &mut Rng, thorough: bool) -> Vec<(String, String)> {
     let mut out = vec![];
-    let n3 = if thorough { 24000 } else { 2400 };
-    let n2 = if thorough { 8000 } else { 800 };
+    let n3 = if thorough { 40000 } else { 5000 };
+    let n2 = if thorough { 12000 } else { 1500 };
     let maxlen = if thorough { 8 } else { 5 };
     for _ in 0..n3 {
         let m = gen_mesh(r, 3, false); let ops = gen_ops(r, 3, maxlen);
